@@ -380,7 +380,7 @@ fn one_recipe(ctx: &mut Ctx, parser: &CooklangParser, input: &str, factor: f64) 
     let n_items: usize = core.sections.iter().flat_map(|s| &s.content).map(|c| if let Content::Step(s) = c { s.items.len() } else { 0 }).sum();
     ctx.count(&format!("recipe:items:{}", match n_items { 0 => "0", 1..=3 => "1-3", 4..=10 => "4-10", _ => ">10" }));
     if core.sections.iter().flat_map(|s| &s.content).any(|c| matches!(c, Content::Text(_))) { ctx.count("recipe:has-text-block"); }
-    for i in &core.ingredients { match i.quantity.as_ref().map(|q| q.value()) { None => ctx.count("ingredient:no-quantity"), Some(CoreValue::Number(_)) => ctx.count("ingredient:number"), Some(CoreValue::Range { .. }) => ctx.count("ingredient:range"), Some(CoreValue::Text(_)) => ctx.count("ingredient:text") }
+    for i in &core.ingredients { match i.quantity.as_ref().map(|q| q.value()) { None => ctx.count("ingredient:no-quantity"), Some(CoreValue::Number(n)) => { ctx.count("ingredient:number"); if matches!(n, cooklang::quantity::Number::Fraction { .. }) { ctx.count("ingredient:number:fraction"); } } Some(CoreValue::Range { .. }) => ctx.count("ingredient:range"), Some(CoreValue::Text(_)) => ctx.count("ingredient:text") }
         if i.note.is_some() { ctx.count("ingredient:note"); } if i.quantity.as_ref().is_some_and(|q| q.unit().is_some()) { ctx.count("ingredient:unit"); } }
     ctx.count_n("cookware", core.cookware.len() as u64);
     for t in &core.timers { ctx.count(if t.name.is_some() { "timer:named" } else { "timer:unnamed" }); }
